@@ -140,6 +140,15 @@ var vfC40Sizes = []int{0, 1, 2, 8, 9, 10, 100, 4000, 4075, 4076, 4077, 4078, 407
 	524288, 1000000, 1048000, 1048500, 1048540}
 
 func vfC40Size(r *rand.Rand, big bool) int {
+	if big {
+		switch r.IntN(3) {
+		case 0:
+			return []int{1000000, 1048000, 1048500, 1048540, 1048539}[r.IntN(5)]
+		case 1:
+			return []int{131072, 300000, 524288, 70000}[r.IntN(4)]
+		}
+		return r.IntN(1048540)
+	}
 	switch r.IntN(10) {
 	case 0, 1, 2, 3:
 		return r.IntN(200)
@@ -181,12 +190,40 @@ type vfC40Side struct {
 	queries map[int]IQuery
 	cursors map[int]ICursor
 	hdrs    map[int]*Header
-	offs    map[string]uint64 // table|packed key -> record offset on this side
+	qtran   map[int]int // query handle -> transaction handle
+	// offs: transaction|table|packed key -> record offset on this side. Like SuRecord, the
+	// monitor only passes an offset back in the transaction that read the row, and forgets it
+	// when the row is updated/erased, when an action runs in the transaction, and when the
+	// transaction ends (db19 trusts the offsets it is given).
+	offs map[string]uint64
+	last map[int][2]string // transaction -> (table, packed key) of the row it read most recently
+}
+
+func vfC40OffKey(tran int, tbl, key string) string { return fmt.Sprintf("%d|%s|%s", tran, tbl, key) }
+
+func (sd *vfC40Side) forget(tran int) {
+	pre := fmt.Sprintf("%d|", tran)
+	for k := range sd.offs {
+		if strings.HasPrefix(k, pre) {
+			delete(sd.offs, k)
+		}
+	}
+	delete(sd.last, tran)
+}
+
+// withKey returns rec with its first field (k) replaced by the packed key
+func vfC40WithKey(rec Record, key string) Record {
+	var rb RecordBuilder
+	rb.AddRaw(key)
+	for i := 1; i < rec.Len(); i++ {
+		rb.AddRaw(rec.GetRaw(i))
+	}
+	return rb.Build()
 }
 
 func vfC40NewSide(name string, d IDbms) *vfC40Side {
 	return &vfC40Side{name: name, d: d, th: NewThread(nil), trans: map[int]ITran{}, queries: map[int]IQuery{},
-		cursors: map[int]ICursor{}, hdrs: map[int]*Header{}, offs: map[string]uint64{}}
+		cursors: map[int]ICursor{}, hdrs: map[int]*Header{}, qtran: map[int]int{}, offs: map[string]uint64{}, last: map[int][2]string{}}
 }
 
 func vfC40ErrStr(e any) string {
@@ -205,7 +242,7 @@ func vfC40ErrStr(e any) string {
 }
 
 // row renders a row by column name (offsets are per database and are not compared)
-func (sd *vfC40Side) row(row Row, hdr *Header, tbl string, keycol string) string {
+func (sd *vfC40Side) row(row Row, hdr *Header, tbl string, keycol string, tran int) string {
 	if row == nil {
 		return "eof"
 	}
@@ -221,8 +258,9 @@ func (sd *vfC40Side) row(row Row, hdr *Header, tbl string, keycol string) string
 			fmt.Fprintf(&sb, " %s=%q", c, raw)
 		}
 	}
-	if tbl != "" && keycol != "" && len(row) == 1 {
-		sd.offs[tbl+"|"+row.GetRaw(hdr, keycol)] = row[0].Off
+	if tbl != "" && keycol != "" && len(row) == 1 && tran != 0 {
+		sd.offs[vfC40OffKey(tran, tbl, row.GetRaw(hdr, keycol))] = row[0].Off
+		sd.last[tran] = [2]string{tbl, row.GetRaw(hdr, keycol)}
 	}
 	return sb.String()
 }
@@ -238,6 +276,7 @@ type vfC40Op struct {
 	key    string // packed key value for update/erase
 	sorted bool
 	nocmp  bool // result is legitimately database/time specific: only success/failure is compared
+	marker int  // complete: key of the marker row written just before
 }
 
 func (op *vfC40Op) String() string {
@@ -272,7 +311,8 @@ func (op *vfC40Op) String() string {
 // reset forgets the handles of the previous program (the handle numbers start again)
 func (sd *vfC40Side) reset() {
 	sd.trans, sd.queries, sd.cursors = map[int]ITran{}, map[int]IQuery{}, map[int]ICursor{}
-	sd.hdrs, sd.offs = map[int]*Header{}, map[string]uint64{}
+	sd.hdrs, sd.offs, sd.qtran = map[int]*Header{}, map[string]uint64{}, map[int]int{}
+	sd.last = map[int][2]string{}
 }
 
 func (sd *vfC40Side) exec(op *vfC40Op) (res string) {
@@ -298,17 +338,21 @@ func (sd *vfC40Side) exec1(op *vfC40Op) string {
 	case "complete":
 		t := sd.trans[op.h]
 		delete(sd.trans, op.h)
+		sd.forget(op.h)
 		return "complete: " + t.Complete()
 	case "abort":
 		t := sd.trans[op.h]
 		delete(sd.trans, op.h)
+		sd.forget(op.h)
 		t.Abort()
 		return "ok"
 	case "action":
+		sd.forget(op.h2)
 		return fmt.Sprint("n=", sd.trans[op.h2].Action(th, op.s))
 	case "query":
 		q := sd.trans[op.h2].Query(op.s, nil)
 		sd.queries[op.h] = q
+		sd.qtran[op.h] = op.h2
 		return "ok"
 	case "cursor":
 		c := d.Cursor(op.s, nil)
@@ -342,11 +386,11 @@ func (sd *vfC40Side) exec1(op *vfC40Op) string {
 	case "get":
 		hdr := sd.header(op.h)
 		row, tbl := sd.queries[op.h].Get(th, op.dir)
-		return sd.row(row, hdr, tbl, op.s)
+		return sd.row(row, hdr, tbl, op.s, sd.qtran[op.h])
 	case "cget":
 		hdr := sd.header(op.h)
 		row, tbl := sd.cursors[op.h].Get(th, sd.trans[op.h2], op.dir)
-		return sd.row(row, hdr, tbl, op.s)
+		return sd.row(row, hdr, tbl, op.s, op.h2)
 	case "scan": // full forward scan, compared as a multiset
 		hdr := sd.header(op.h)
 		var rows []string
@@ -355,7 +399,7 @@ func (sd *vfC40Side) exec1(op *vfC40Op) string {
 			if row == nil {
 				break
 			}
-			rows = append(rows, sd.row(row, hdr, tbl, op.s))
+			rows = append(rows, sd.row(row, hdr, tbl, op.s, sd.qtran[op.h]))
 		}
 		sort.Strings(rows)
 		return fmt.Sprintf("scan %d rows %x\n%s", len(rows), vk.Hash64(strings.Join(rows, "\n")), vk.Trunc(strings.Join(rows, "\n"), 1500))
@@ -380,24 +424,29 @@ func (sd *vfC40Side) exec1(op *vfC40Op) string {
 		if op.dir == Any {
 			return "exists"
 		}
-		return sd.row(row, hdr, tbl, op.s)
-	case "update":
-		off, ok := sd.offs[op.s+"|"+op.key]
-		if !ok {
+		return sd.row(row, hdr, tbl, op.s, op.h2)
+	case "update": // the row this transaction read most recently (from a plain single-table query)
+		l, have := sd.last[op.h2]
+		ok_ := vfC40OffKey(op.h2, l[0], l[1])
+		off, ok := sd.offs[ok_]
+		if !have || !ok {
 			return "no-offset"
 		}
-		newoff := sd.trans[op.h2].Update(th, op.s, off, op.rec)
-		delete(sd.offs, op.s+"|"+op.key)
-		_ = newoff
-		return "ok"
+		delete(sd.offs, ok_)
+		newoff := sd.trans[op.h2].Update(th, l[0], off, vfC40WithKey(op.rec, l[1]))
+		sd.offs[ok_] = newoff // SuRecord keeps the new offset after Update
+		return fmt.Sprintf("ok %s %q", l[0], l[1])
 	case "erase":
-		off, ok := sd.offs[op.s+"|"+op.key]
-		if !ok {
+		l, have := sd.last[op.h2]
+		ok_ := vfC40OffKey(op.h2, l[0], l[1])
+		off, ok := sd.offs[ok_]
+		if !have || !ok {
 			return "no-offset"
 		}
-		sd.trans[op.h2].Delete(th, op.s, off)
-		delete(sd.offs, op.s+"|"+op.key)
-		return "ok"
+		delete(sd.offs, ok_)
+		delete(sd.last, op.h2)
+		sd.trans[op.h2].Delete(th, l[0], off)
+		return fmt.Sprintf("ok %s %q", l[0], l[1])
 	case "readcount":
 		return fmt.Sprint("n=", sd.trans[op.h2].ReadCount())
 	case "writecount":
@@ -499,7 +548,30 @@ type vfC40Gen struct {
 	// transaction of the program writes: db19 picks the victim of a conflict between two ACTIVE
 	// writers at random (check.go abort1of), which is legal nondeterminism. Conflicts with
 	// committed writers and with readers are deterministic and are generated.
-	writer int
+	writer  int
+	pending []*vfC40Op
+	markers int
+}
+
+// finish returns the ops that end transaction t: for an update transaction that may write, a
+// marker row is written first; after the commit the monitor looks for it in the database, so the
+// reported outcome of the commit is checked against its effect on each side separately.
+func (g *vfC40Gen) finish(t vfC40H, abort bool) *vfC40Op {
+	kind := "complete"
+	if abort {
+		kind = "abort"
+	}
+	end := &vfC40Op{kind: kind, h: t.h}
+	if t.update && !abort && g.canWrite(t) {
+		g.markers++
+		end.marker = 5000000 + g.markers
+		g.pending = append(g.pending, end)
+		g.markWrite(t)
+		g.dropTran(t.h)
+		return &vfC40Op{kind: "action", h2: t.h, s: fmt.Sprintf("insert { k: %d, c: 'marker' } into %s", end.marker, g.U)}
+	}
+	g.dropTran(t.h)
+	return end
 }
 
 func (g *vfC40Gen) canWrite(t vfC40H) bool { return !t.update || g.writer == 0 || g.writer == t.h }
@@ -671,6 +743,11 @@ func (g *vfC40Gen) queryText() (string, bool, string) {
 func (g *vfC40Gen) next(step, steps int) *vfC40Op {
 	r := g.r
 	T, U := g.T, g.U
+	if len(g.pending) > 0 {
+		op := g.pending[0]
+		g.pending = g.pending[1:]
+		return op
+	}
 	if step == 0 {
 		return &vfC40Op{kind: "admin", s: "create " + T + " (k, a, b, s) key(k) index(a)"}
 	}
@@ -689,12 +766,7 @@ func (g *vfC40Gen) next(step, steps int) *vfC40Op {
 			return &vfC40Op{kind: "close", h: q.h}
 		}
 		if len(g.trans) > 0 {
-			t := g.trans[0]
-			g.dropTran(t.h)
-			if r.IntN(3) == 0 {
-				return &vfC40Op{kind: "abort", h: t.h}
-			}
-			return &vfC40Op{kind: "complete", h: t.h}
+			return g.finish(g.trans[0], r.IntN(3) == 0)
 		}
 		return nil
 	}
@@ -713,12 +785,7 @@ func (g *vfC40Gen) next(step, steps int) *vfC40Op {
 			if len(g.trans) == 0 {
 				continue
 			}
-			t := g.trans[r.IntN(len(g.trans))]
-			g.dropTran(t.h)
-			if r.IntN(4) == 0 {
-				return &vfC40Op{kind: "abort", h: t.h}
-			}
-			return &vfC40Op{kind: "complete", h: t.h}
+			return g.finish(g.trans[r.IntN(len(g.trans))], r.IntN(4) == 0)
 		case x < 30: // action
 			t, ok := g.pickTran()
 			if !ok || !g.canWrite(t) {
@@ -863,12 +930,10 @@ func (g *vfC40Gen) next(step, steps int) *vfC40Op {
 				continue
 			}
 			g.markWrite(t)
-			k := g.someKey()
-			key := Pack(IntVal(k).(Packable))
 			if r.IntN(2) == 0 {
-				return &vfC40Op{kind: "update", h2: t.h, s: T, key: key, rec: g.record(k)}
+				return &vfC40Op{kind: "update", h2: t.h, rec: g.record(0)} // the key field is filled in from the row
 			}
-			return &vfC40Op{kind: "erase", h2: t.h, s: T, key: key}
+			return &vfC40Op{kind: "erase", h2: t.h}
 		case x < 94:
 			t, ok := g.pickTran()
 			if !ok {
@@ -1039,15 +1104,24 @@ func vfC40Setup() *vfC40Env {
 	if err != nil {
 		panic(err)
 	}
-	p1, p2 := net.Pipe()
-	go newServerConn(env.local1, p1, &tls.Config{Certificates: []tls.Certificate{cert}})
-	if e := checkHello(p2); e != "" {
-		panic("C40 harness: " + e)
-	}
-	p2.Write(hello())
-	tc := tls.Client(p2, &tls.Config{InsecureSkipVerify: true})
-	if err := tc.Handshake(); err != nil {
-		panic(err)
+	var tc *tls.Conn
+	for try := 0; ; try++ { // the hello exchange has a 500 ms deadline; a loaded machine can miss it
+		p1, p2 := net.Pipe()
+		go newServerConn(env.local1, p1, &tls.Config{Certificates: []tls.Certificate{cert}})
+		e := checkHello(p2)
+		if e == "" {
+			p2.Write(hello())
+			tc = tls.Client(p2, &tls.Config{InsecureSkipVerify: true})
+			if err := tc.Handshake(); err == nil {
+				break
+			} else {
+				e = err.Error()
+			}
+		}
+		p2.Close()
+		if try > 50 {
+			panic("C40 harness: cannot connect: " + e)
+		}
 	}
 	env.frag = &vfC40Frag{c: tc, rr: vk.Rand(4001), wr: vk.Rand(4002)}
 	env.client = NewDbmsClient(env.frag)
@@ -1242,11 +1316,35 @@ func TestVerifC40(t *testing.T) {
 					}
 					doomed[tranH] = true
 				}
-				if tranH != 0 && doomed[tranH] {
+				if tranH != 0 && doomed[tranH] && op.kind != "complete" {
 					rep.Count("ops_on_failed_transaction", 1)
 					same = true
-					if op.kind == "complete" {
-						same = (rr == "complete: ") == (rl == "complete: ")
+				}
+				outcomeDiffers := false
+				if op.kind == "complete" {
+					okR, okL := rr == "complete: ", rl == "complete: "
+					// the outcome each side reports must agree with what is in its database
+					if op.marker != 0 && !strings.HasPrefix(rr, "ERR") && !strings.HasPrefix(rl, "ERR") {
+						inR, inL := vfC40HasRow(env.local1, g.U, op.marker), vfC40HasRow(env.local2, g.U, op.marker)
+						rep.Count("commit_outcome_vs_database_checks", 1)
+						if inR != okR {
+							rep.Violate("C40/commit-outcome-untrue/client-server", ops, map[string]any{"reported": rr, "marker_row_in_database": inR,
+								"program": pi, "history": append([]string(nil), hist[max(0, len(hist)-20):]...)})
+						}
+						if inL != okL {
+							rep.Violate("C40/commit-outcome-untrue/local", ops, map[string]any{"reported": rl, "marker_row_in_database": inL, "program": pi})
+						}
+					}
+					if !okR || !okL {
+						rep.Count("commit_failures_seen", 1)
+					}
+					if vfC40IsConflict(rr) || vfC40IsConflict(rl) {
+						// db19 decides conflicts on an asynchronous priority queue: which transaction loses,
+						// and even whether a read/write pair overlaps, is timing dependent. Texts are not compared.
+						same = true
+						if okR != okL {
+							outcomeDiffers = true
+						}
 					}
 				}
 				hist = append(hist, ops+"  =>  "+vk.Trunc(rr, 200))
@@ -1265,6 +1363,12 @@ func TestVerifC40(t *testing.T) {
 				}
 				if strings.HasPrefix(rl, "complete: ") && rl != "complete: " {
 					rep.Count("commit_failures", 1)
+				}
+				if outcomeDiffers {
+					// legal nondeterminism of conflict detection: the two databases now differ, give the program up
+					rep.Count("programs_abandoned_conflict_outcome", 1)
+					failed = true
+					break
 				}
 				if same {
 					continue
@@ -1295,6 +1399,12 @@ func TestVerifC40(t *testing.T) {
 			if failed {
 				// the two sides may have diverged: start over with fresh sessions
 				rep.Count("programs_abandoned", 1)
+				for _, tr := range local.trans {
+					vk.Catch(func() { tr.Abort() })
+				}
+				for _, tr := range remote.trans {
+					vk.Catch(func() { tr.Abort() })
+				}
 				remote = vfC40NewSide("client-server", env.client.NewSession())
 				local = vfC40NewSide("local", env.local2)
 				continue
@@ -1348,6 +1458,21 @@ func TestVerifC40(t *testing.T) {
 		rep.Violate("C40/fatal-called", vk.Trunc(vfC40Digits(last), 120), map[string]any{"count": n, "last": last,
 			"what": "core.Fatal was called (a real client or server process exits); no connection was closed by the monitor"})
 	}
+}
+
+// vfC40HasRow reads table tbl of a database locally
+func vfC40HasRow(local *DbmsLocal, tbl string, k int) bool {
+	found := false
+	vk.Catch(func() {
+		t := local.Transaction(false)
+		defer t.Complete()
+		ob := &SuObject{}
+		ob.Add(SuStr(tbl))
+		ob.Set(SuStr("k"), IntVal(k))
+		row, _, _ := t.Get(&Thread{}, ob, Only)
+		found = row != nil
+	})
+	return found
 }
 
 func vfC40IsConflict(res string) bool {
